@@ -14,7 +14,7 @@ use crate::props::c12::to_transform;
 use crate::statejson::{self, lj_shape, Params, ShapeSpec, StateSpec};
 
 pub const TITLE: &str = "The Lennard-Jones score is minus the crystal's lattice energy per molecule";
-pub const RULE: &str = "cases = (group, LJ shape: circle sigma=1 uncut, or trimer radius 0.2..1.2 x angle 0..180 x distance 0..2 with cutoff 3.5) x cell (area per molecule log-uniform in 0.3..20 enclosing-disc areas, ratio 0.1..1, angle pi/6..pi/2 for oblique groups) x site (bound-heavy mixture) x a re-description twin {none, origin shift by (1/2,0),(0,1/2),(1/2,1/2), any shift along a free direction (p1: both; p1m1/p1g1: y), 2-fold re-description (-x,-y,phi+pi) for groups with a 2-fold, a copy moved across a face (x+-1 or y+-1)}. Oracle: the harness enumerates, from the lattice geometry, every unordered pair of distinct molecule images with centre distance below cutoff + 2 molecule radii (uncut: 30 sigma), each once, places the molecules itself and sums the package's own pair energy (symmetrised); score must equal -sum/N within 1e-9 of the sum of |terms|. Uncut potential: any value between the 3-shell partial sum and the converged sum (+ analytic tail bound 2 pi rho/Rc^4) is accepted. The twin must score the same (cut potential: same tolerance; uncut: each inside its own admissible interval). Cases with coincident atoms (r < 1e-9) are skipped and counted. Non-trivial = some contributing pair involves an image with lattice index != 0 and (N >= 2 or a self-image term exists); distinct by hash of the numbers.";
+pub const RULE: &str = "cases = (group, LJ shape: circle sigma=1 uncut, or trimer radius 0.2..1.2 x angle 0..180 x distance 0..2 with cutoff 3.5) x cell (area per molecule log-uniform in 0.3..20 enclosing-disc areas, ratio 0.1..1, angle pi/6..pi/2 for oblique groups) x site (bound-heavy mixture) x a re-description twin {none, origin shift by (1/2,0),(0,1/2),(1/2,1/2), any shift along a free direction (p1: both; p1m1/p1g1: y), 2-fold re-description (-x,-y,phi+pi) for groups with a 2-fold, a copy moved across a face (x+-1 or y+-1)}; in a fifth of the cases the state object is first scored with another shape and then given the shape under test through its public field (a stale cached score would show). Oracle: the harness enumerates, from the lattice geometry, every unordered pair of distinct molecule images with centre distance below cutoff + 2 molecule radii (uncut: 30 sigma), each once, places the molecules itself and sums the package's own pair energy (symmetrised); score must equal -sum/N within 1e-9 of the sum of |terms|. Uncut potential: any value between the 3-shell partial sum and the converged sum (+ analytic tail bound 2 pi rho/Rc^4) is accepted. The twin must score the same (cut potential: same tolerance; uncut: each inside its own admissible interval). Cases with coincident atoms (r < 1e-9) are skipped and counted. Non-trivial = some contributing pair involves an image with lattice index != 0 and (N >= 2 or a self-image term exists); distinct by hash of the numbers.";
 
 pub fn assumptions() -> Vec<&'static str> {
     vec![
@@ -31,6 +31,9 @@ pub struct LjCase {
     pub twin: u8,
     pub shift: (f64, f64),
     pub face: (i8, i8),
+    /// when set: the state is first built and scored with this other shape, then its public `shape` field is
+    /// replaced by the case's shape and it is scored again (the second score is the one judged)
+    pub replaced_from: Option<ShapeSpec>,
 }
 
 fn lj_shape_spec() -> BoxedStrategy<ShapeSpec> {
@@ -65,11 +68,12 @@ fn strat(_: &Ctx) -> BoxedStrategy<LjCase> {
                 0u8..7,
                 (-0.5..0.5f64, -0.5..0.5f64),
                 (prop_oneof![Just(-1i8), Just(0i8), Just(1i8)], prop_oneof![Just(-1i8), Just(0i8), Just(1i8)]),
+                prop_oneof![4 => Just(None), 1 => lj_shape_spec().prop_map(Some)],
             )
-                .prop_map(move |(group, shape, per_mol, ratio, angle, (x, y, phi), twin, shift, face)| {
+                .prop_map(move |(group, shape, per_mol, ratio, angle, (x, y, phi), twin, shift, face, replaced_from)| {
                     let cell_area = n * per_mol * PI * r * r;
                     let length = (cell_area / (ratio * angle.sin())).sqrt();
-                    LjCase { spec: StateSpec { group, shape, p: Params { length, ratio, angle, x, y, phi } }, twin, shift, face }
+                    LjCase { spec: StateSpec { group, shape, p: Params { length, ratio, angle, x, y, phi } }, twin, shift, face, replaced_from }
                 })
         })
         .boxed()
@@ -93,6 +97,24 @@ pub fn lattice_energy(shape: &LJShape2, group: usize, p: &Params, rho: f64, max_
     let a = lat.va();
     let b = lat.vb();
     let mut s = Sum { energy: 0., abs: 0., pairs: 0, max_index: 0, min_r: f64::INFINITY, nontrivial: false };
+    // sum over atom pairs of the magnitude of the uncut pair energy at the cutoff distance
+    let shift_mag: f64 = {
+        let mut m = 0.;
+        for x in shape.items.iter() {
+            for y in shape.items.iter() {
+                if let (Some(cx), Some(cy)) = (x.cutoff, y.cutoff) {
+                    let rc = 0.5 * (cx + cy);
+                    let a = packing::LJ2 { position: nalgebra::Point2::new(0., 0.), sigma: x.sigma, epsilon: x.epsilon, cutoff: None };
+                    let b = packing::LJ2 { position: nalgebra::Point2::new(rc, 0.), sigma: y.sigma, epsilon: y.epsilon, cutoff: None };
+                    let e = a.energy(&b).abs();
+                    if e.is_finite() {
+                        m += e;
+                    }
+                }
+            }
+        }
+        m
+    };
     let mut buf = Vec::new();
     for i in 0..copies.len() {
         for j in i..copies.len() {
@@ -122,7 +144,9 @@ pub fn lattice_energy(shape: &LJShape2, group: usize, p: &Params, rho: f64, max_
                 }
                 if e != 0. {
                     s.energy += e;
-                    s.abs += e.abs();
+                    // a truncated-and-shifted pair energy is a difference of two terms of the size of the shift:
+                    // its rounding (and conditioning) error scales with that size, not with the small difference
+                    s.abs += e.abs() + shift_mag;
                     s.pairs += 1;
                     let idx = n.abs().max(m.abs());
                     if idx > s.max_index {
@@ -251,7 +275,16 @@ fn oracle(c: &LjCase, rec: &Rec, ctx: &Ctx) -> Result<(), String> {
         rec.class("skipped-work-bound");
         return Ok(());
     }
-    let state = statejson::potential_lj(&c.spec)?;
+    let state = match &c.replaced_from {
+        None => statejson::potential_lj(&c.spec)?,
+        Some(other) => {
+            // same object, scored once with another shape, then given the shape under test
+            let mut st = statejson::potential_lj(&StateSpec { group: c.spec.group, shape: other.clone(), p: c.spec.p.clone() })?;
+            let _ = st.score();
+            st.shape = shape.clone();
+            st
+        }
+    };
     let score = state.score().ok_or("PotentialState::score returned None")?;
     let (judged, sum) = judge(&shape, c.spec.group, &c.spec.p, score, uncut, rho, ctx, rec, "state")?;
     if !judged {
@@ -279,7 +312,12 @@ fn oracle(c: &LjCase, rec: &Rec, ctx: &Ctx) -> Result<(), String> {
             }
         }
     }
-    let kind = if uncut { "circle-uncut" } else { "trimer-cut" };
+    let kind = match (uncut, c.replaced_from.is_some()) {
+        (true, false) => "circle-uncut",
+        (false, false) => "trimer-cut",
+        (true, true) => "circle-uncut/shape-replaced",
+        (false, true) => "trimer-cut/shape-replaced",
+    };
     let class = format!("{}/{}/{}{}", kind, twin_class, if sum.nontrivial { "periodic-terms" } else { "no-periodic-terms" }, if sum.max_index > 3 { "/beyond-3-shells" } else { "" });
     rec.class(&class);
     if sum.nontrivial {
